@@ -28,6 +28,16 @@ pub use self::base::{Collector, Cleanup, Run, Repository};
 pub use self::rrdp::{HttpStatus, RrdpArchive, SnapshotReason};
 #[cfg(routinator_verif)] pub use self::rrdp::RepositoryState;
 
+/// Direct access to the transport-specific collectors for verification.
+#[cfg(routinator_verif)]
+pub mod verif {
+    pub use super::rrdp::{
+        Collector as RrdpCollector, LoadResult as RrdpLoadResult,
+        ReadRepository as RrdpReadRepository, Run as RrdpRun,
+    };
+    pub use super::rsync::{Collector as RsyncCollector, Run as RsyncRun};
+}
+
 mod base;
 mod rrdp;
 mod rsync;
